@@ -7,6 +7,15 @@ TRUST = ('rustc MIR construction + type checker (nightly 1.97), the mirfacts dri
          '(lint/extern_models.py), dependency crates not analysed; see DESIGN.md 2.1')
 
 CLAIMS = {
+ 'C05': dict(
+    text='Static, all executions: the structural necessary-and-sufficient shape of atomicity is decided on MIR. T1 decode_next_picture is one reader '
+         'transaction; T2/T3 no possibly-Err return is CFG-reachable from any write to *self (direct, or via callee mod/ref summaries) or from commit(); '
+         'T4 the three transaction wrappers take the checkpoint before the closure and roll back to it on exactly the failing paths (edge-removal '
+         'reachability); T5 who-may-write bits_read/buffer/source and who-may-call commit; T6 byte-wise refill so a failed fill loses nothing; '
+         'T7 all 23 parser functions are single transactions and all 62 consuming primitive sites sit inside transaction closures. '
+         'The clause "retry after more data behaves as if all data had been present" is decided only through these conditions (a split inside '
+         'macroblock data ends the picture successfully, so that clause is vacuous there).',
+    technique='CFG reachability + dominance rules and interprocedural mod/ref effect summaries over MIR', ref='6/C05'),
  'C17': dict(
     text='Static, all executions: no shared mutable state and no nondeterminism source exists in the three crates. S1 every static immutable+Freeze '
          '(lazy_static cells: pure constant initialiser), S2 zero unsafe/extern (HIR walk), S3 interprocedural mod/ref summaries show no static is written, '
